@@ -162,8 +162,8 @@ theorem bMulModSpecial_eq {a b : List Nat} (c : Nat) (hab : a.length = b.length)
       rw [bAdc_two _ _ (by rw [hml]; exact hn), hml]
       have hl2 := uadc_length (macByLimb (toLimbs a.length (val a * val b))
         (toLimbs a.length (val a * val b / B ^ a.length)) c 0).1
-        (fromWideWord a.length (wadd (macByLimb (toLimbs a.length (val a * val b))
-        (toLimbs a.length (val a * val b / B ^ a.length)) c 0).2 1 * c)) 0
+        (fromWideWord a.length (((macByLimb (toLimbs a.length (val a * val b))
+        (toLimbs a.length (val a * val b / B ^ a.length)) c 0).2 + 1) * c)) 0
         (by rw [hml, fromWideWord_length _ hn])
       rw [bSbb_one _ _ (by rw [hl2, hml]; omega), hl2, hml]
 
